@@ -116,7 +116,28 @@ pub fn main(args: &[String]) {
         files.insert(m.to_string(), random_content(&mut rng, m, long));
       }
     }
-    ops.push(json!({"op": "Init", "files": files}));
+    // one history in four starts from a dependency chain: q provides a class, p hands it out, far uses it through p
+    // without importing q; q is then edited so that far's diagnostics have to change (and changed back)
+    let chain = rng.chance(1, 4);
+    if chain {
+      let mut ms: Vec<&str> = NAMES.to_vec();
+      for i in (1..ms.len()).rev() {
+        ms.swap(i, rng.below(i + 1));
+      }
+      let (q, p, far) = (ms[0], ms[1], ms[2]);
+      let v = rng.below(6);
+      files.insert(q.to_string(), json!({"text": text_pool(q, q, q, v, long)[5]}));
+      files.insert(p.to_string(), json!({"text": text_pool(p, q, q, v, long)[4]}));
+      files.insert(far.to_string(), json!({"text": text_pool(far, p, p, v, long)[6]}));
+      ops.push(json!({"op": "Init", "files": files}));
+      for step in 1..=3 {
+        let mut u = serde_json::Map::new();
+        u.insert(q.to_string(), json!({"text": text_pool(q, q, q, v + step, long)[5]}));
+        ops.push(json!({"op": "Update", "u": u}));
+      }
+    } else {
+      ops.push(json!({"op": "Init", "files": files}));
+    }
     for _ in 0..len {
       let k = rng.below(100);
       if k < 60 {
